@@ -163,7 +163,16 @@ class Extension:
 def _gettext_alias(
     __context: Context, *args: t.Any, **kwargs: t.Any
 ) -> t.Any | Undefined:
-    return __context.call(__context.resolve("gettext"), *args, **kwargs)
+    gettext = __context.resolve("gettext")
+
+    # the name can be reassigned in the template, a sandbox has to check it
+    # like any other call written in the template
+    if __context.environment.sandboxed:
+        return __context.environment.call(  # type: ignore[attr-defined]
+            __context, gettext, *args, **kwargs
+        )
+
+    return __context.call(gettext, *args, **kwargs)
 
 
 def _make_new_gettext(func: t.Callable[[str], str]) -> t.Callable[..., str]:
